@@ -455,6 +455,35 @@ func drawC13(t *rapid.T) any {
 // every numeric target kind x boundary values that fit both, as scalar target,
 // struct field, slice element and map value.
 func enumC13(emit func(c any) bool) {
+	// a recursive type with a processing user unfolder: documents that nest the
+	// type inside itself (several processing states of one type active at once)
+	{
+		node := func(name string, kids ...[]model.Ev) []model.Ev {
+			out := []model.Ev{{K: model.KObjStart, L: -1}, {K: model.KKey, S: []byte("name")}, {K: model.KStr, S: []byte(name)}, {K: model.KKeyRef, S: []byte("kids")}, {K: model.KArrStart, L: len(kids)}}
+			for _, k := range kids {
+				out = append(out, k...)
+			}
+			return append(out, model.Ev{K: model.KArrEnd}, model.Ev{K: model.KObjEnd})
+		}
+		ut := gomodel.TypeDesc{Kind: "pool", Pool: "UTree"}
+		doc := node("a", node("b", node("c"), node("c2", node("d"))), node("e"))
+		for _, td := range []gomodel.TypeDesc{ut, {Kind: "ptr", Elem: &ut}, {Kind: "slice", Elem: &ut}, {Kind: "map", Elem: &ut},
+			{Kind: "struct", Fields: []gomodel.FieldDesc{{Name: "T", Type: ut}, {Name: "Z", Type: gomodel.TypeDesc{Kind: "string"}}}}} {
+			td := td
+			evs := doc
+			switch td.Kind {
+			case "slice":
+				evs = append(append(append([]model.Ev{{K: model.KArrStart, L: 2}}, doc...), node("f", node("g"))...), model.Ev{K: model.KArrEnd})
+			case "map":
+				evs = append(append([]model.Ev{{K: model.KObjStart, L: 1}, {K: model.KKey, S: []byte("k")}}, doc...), model.Ev{K: model.KObjEnd})
+			case "struct":
+				evs = append(append([]model.Ev{{K: model.KObjStart, L: -1}, {K: model.KKey, S: []byte("t")}}, doc...), model.Ev{K: model.KKey, S: []byte("z")}, model.Ev{K: model.KStr, S: []byte("after")}, model.Ev{K: model.KObjEnd})
+			}
+			if !emit(&C13Case{Mode: "typed", Type: &td, Evs: evs, Route: "direct", Prefill: true, Note: "recursive processing unfolder"}) {
+				return
+			}
+		}
+	}
 	targetKinds := []string{"int", "int8", "int16", "int32", "int64", "uint", "uint8", "uint16", "uint32", "uint64", "float32", "float64"}
 	bounds := []*big.Int{}
 	for _, s := range []string{"0", "1", "-1", "127", "128", "-128", "-129", "255", "256", "32767", "32768", "-32768", "65535", "65536", "2147483647", "2147483648", "-2147483648", "4294967295", "4294967296", "16777216", "9007199254740992", "9223372036854775807", "-9223372036854775808", "9223372036854775808", "18446744073709551615"} {
@@ -503,6 +532,31 @@ func enumC13(emit func(c any) bool) {
 					{gomodel.TypeDesc{Kind: "struct", Fields: []gomodel.FieldDesc{{Name: "F", Type: user}, {Name: "G", Type: gomodel.TypeDesc{Kind: "map", Elem: &user}}}},
 						[]model.Ev{{K: model.KObjStart, L: -1}, {K: model.KKey, S: []byte("g")}, {K: model.KObjStart, L: 1}, {K: model.KKeyRef, S: []byte("k")}, ev, {K: model.KObjEnd}, {K: model.KKey, S: []byte("f")}, ev, {K: model.KObjEnd}}},
 				}
+				// containers that ANNOUNCE their element type (as folding a typed map or
+				// slice, or a typed container of the binary formats does) into targets
+				// whose elements are reached through pointers or a user unfolder, and an
+				// empty typed container into containers of structs
+				bt := uint8(model.BaseTypeOf(ik.k))
+				pscalar := gomodel.TypeDesc{Kind: "ptr", Elem: &scalar}
+				sA := gomodel.TypeDesc{Kind: "struct", Fields: []gomodel.FieldDesc{{Name: "A", Type: gomodel.TypeDesc{Kind: "int"}}}}
+				typedObj := []model.Ev{{K: model.KObjStart, L: 2, T: bt}, {K: model.KKeyRef, S: []byte("k")}, ev, {K: model.KKey, S: []byte("l")}, ev, {K: model.KObjEnd}}
+				typedArr := []model.Ev{{K: model.KArrStart, L: 2, T: bt}, ev, ev, {K: model.KArrEnd}}
+				shapes = append(shapes, []struct {
+					td  gomodel.TypeDesc
+					evs []model.Ev
+				}{
+					{gomodel.TypeDesc{Kind: "map", Elem: &scalar}, typedObj},
+					{gomodel.TypeDesc{Kind: "map", Elem: &pscalar}, typedObj},
+					{gomodel.TypeDesc{Kind: "map", Elem: &user}, typedObj},
+					{gomodel.TypeDesc{Kind: "slice", Elem: &scalar}, typedArr},
+					{gomodel.TypeDesc{Kind: "slice", Elem: &pscalar}, typedArr},
+					{gomodel.TypeDesc{Kind: "slice", Elem: &user}, typedArr},
+					{gomodel.TypeDesc{Kind: "struct", Fields: []gomodel.FieldDesc{{Name: "M", Type: gomodel.TypeDesc{Kind: "map", Elem: &pscalar}}, {Name: "L", Type: gomodel.TypeDesc{Kind: "slice", Elem: &pscalar}}}},
+						append(append(append([]model.Ev{{K: model.KObjStart, L: 2}, {K: model.KKey, S: []byte("m")}}, typedObj...), model.Ev{K: model.KKey, S: []byte("l")}), append(typedArr, model.Ev{K: model.KObjEnd})...)},
+					{gomodel.TypeDesc{Kind: "map", Elem: &sA}, []model.Ev{{K: model.KObjStart, L: 0, T: bt}, {K: model.KObjEnd}}},
+					{gomodel.TypeDesc{Kind: "slice", Elem: &sA}, []model.Ev{{K: model.KArrStart, L: 0, T: bt}, {K: model.KArrEnd}}},
+					{gomodel.TypeDesc{Kind: "map", Elem: &gomodel.TypeDesc{Kind: "slice", Elem: &scalar}}, []model.Ev{{K: model.KObjStart, L: 0, T: bt}, {K: model.KObjEnd}}},
+				}...)
 				for i := range shapes {
 					if !emit(&C13Case{Mode: "typed", Type: &shapes[i].td, Evs: shapes[i].evs, Route: "direct", Prefill: true, Note: "conversion matrix"}) {
 						return
@@ -535,7 +589,7 @@ func enumC13(emit func(c any) bool) {
 func init() {
 	register(&Property{
 		ID:            "C13",
-		Rule:          "(a) generic: gen.Stream (strings/keys by value or by reference, announced/unknown lengths, element-type hints, extended events) into *interface{}; oracle = independently built generic Go value (typed slices/maps where a BaseType is announced, last duplicate wins), compared with exact Go types. (b) typed: generated supported Go type and value, rendered from the fold model as a PERTURBED stream — every number through any numeric event kind that holds it (all integer widths, float32<->float64, integers for integral floats, integral floats for small integers on direct delivery), strings/keys by value or reference, members permuted, members omitted, scalar members duplicated, unknown members of every shape (scalars, by-reference strings, nested objects with keys, arrays, typed arrays) at drawn positions and depths — delivered directly or through the json/ubjson/cborl encoder+parser into a fresh or sentinel-prefilled target (1 in 5: a target that already holds a generated value — only the outcome and the lengths of all slices are checked then), 1 in 5 with the unfolder's key cache enabled; oracle = reference model of assignment (gomodel.Assign) applied to the tree of the very same stream, every event method must return nil, unfolder stacks idle. Deterministic part: the full numeric conversion matrix (11 integer event kinds + 2 float kinds x 12 numeric target kinds x boundary values that fit) as scalar target, struct field, slice element and map value, and through the primitive user unfolder of the target kind (as target, []*T element, struct field and map value). non-trivial = at least one unknown member or one width conversion (generic mode: more than one event); distinct by case hash",
+		Rule:          "(a) generic: gen.Stream (strings/keys by value or by reference, announced/unknown lengths, element-type hints, extended events) into *interface{}; oracle = independently built generic Go value (typed slices/maps where a BaseType is announced, last duplicate wins), compared with exact Go types. (b) typed: generated supported Go type and value, rendered from the fold model as a PERTURBED stream — every number through any numeric event kind that holds it (all integer widths, float32<->float64, integers for integral floats, integral floats for small integers on direct delivery), strings/keys by value or reference, members permuted, members omitted, scalar members duplicated, unknown members of every shape (scalars, by-reference strings, nested objects with keys, arrays, typed arrays) at drawn positions and depths — delivered directly or through the json/ubjson/cborl encoder+parser into a fresh or sentinel-prefilled target (1 in 5: a target that already holds a generated value — only the outcome and the lengths of all slices are checked then), 1 in 5 with the unfolder's key cache enabled; oracle = reference model of assignment (gomodel.Assign) applied to the tree of the very same stream, every event method must return nil, unfolder stacks idle. Deterministic part: nested documents for a recursive type with a processing user unfolder (as target, pointer, element, map value, field); the full numeric conversion matrix (11 integer event kinds + 2 float kinds x 12 numeric target kinds x boundary values that fit) as scalar target, struct field, slice element and map value, and through the primitive user unfolder of the target kind (as target, []*T element, struct field and map value), and the same values inside maps and slices that announce their element type, into targets whose elements are scalars, pointers to scalars or user-unfolded types, plus empty typed containers into containers of structs. non-trivial = at least one unknown member or one width conversion (generic mode: more than one event); distinct by case hash",
 		New:           func() any { return &C13Case{} },
 		Draw:          drawC13,
 		Check:         checkC13,
